@@ -6,6 +6,7 @@ strategies, every store and every schedule of third-party operations between PKO
 its write (`World.env`).
 -/
 import Pko.Model.Phase
+import Pko.Lemmas.Watch
 
 namespace Pko.Props.C05
 open Pko.Kube Pko.Model.Phase
@@ -35,7 +36,7 @@ inductive StepShape (cfg : Cfg) (ow : Owner) (p : PObj) (w : World) (w' : World)
 a teardown step on one object has one of the three shapes above. -/
 theorem teardownPhaseObject_shape (cfg : Cfg) (ow : Owner) (p : PObj) (w : World) :
     StepShape cfg ow p w (teardownPhaseObject cfg ow p w).1 := by
-  simp only [teardownPhaseObject]
+  simp only [teardownPhaseObject, watch_store, watch_beforeWrite_store]
   split
   · exact .nothing rfl rfl
   · exact .nothing rfl rfl
@@ -81,7 +82,7 @@ theorem delete_pinned (cfg : Cfg) (ow : Owner) (p : PObj) (w : World) (cur : Obj
     (hc : isController cfg.st (ow.ref true) cur = true)
     (hchg : ∀ c, w.beforeWrite.store.get (keyOf cfg ow p) = some c → c.uid ≠ cur.uid ∨ c.rv ≠ cur.rv) :
     (teardownPhaseObject cfg ow p w).1.store.objs = w.beforeWrite.store.objs := by
-  simp only [teardownPhaseObject, hpf, hget, hc, Bool.not_true, Bool.false_eq_true, ↓reduceIte]
+  simp only [teardownPhaseObject, watch_store, watch_beforeWrite_store, hpf, hget, hc, Bool.not_true, Bool.false_eq_true, ↓reduceIte]
   cases hg : w.beforeWrite.store.get (keyOf cfg ow p) with
   | none =>
     have : w.beforeWrite.store.delete (keyOf cfg ow p) cur.uid cur.rv = (w.beforeWrite.store, .error .notFound) := by
@@ -130,7 +131,7 @@ theorem teardownPhaseObject_other_keys (cfg : Cfg) (ow : Owner) (p : PObj) (w : 
     (hk : k ≠ keyOf cfg ow p) :
     (teardownPhaseObject cfg ow p w).1.store.get k = w.store.get k ∨
     (teardownPhaseObject cfg ow p w).1.store.get k = w.beforeWrite.store.get k := by
-  simp only [teardownPhaseObject]
+  simp only [teardownPhaseObject, watch_store, watch_beforeWrite_store]
   split
   · left; rfl
   · left; rfl
